@@ -27,7 +27,7 @@ from translate import c18_table as T
 
 KNOWN = {
     'anf-sibling-order', 'anf-assign-target-order', 'anf-dict-order', 'anf-slice-hoisted',
-    'anf-target-hoisted', 'anf-operator-hoisted', 'anf-boolop-test-double-truth', 'anf-gensym-user-name-collision', 'anf-pending-lost', 'anf-starred-unpack-order',
+    'anf-target-hoisted', 'anf-operator-hoisted', 'anf-boolop-test-double-truth', 'anf-gensym-user-name-collision', 'anf-name-read-before-walrus', 'anf-pending-lost', 'anf-starred-unpack-order',
 }
 
 
@@ -126,7 +126,7 @@ def shape_failures(orig, out, config, hoisted):
             if isinstance(getattr(n, 'ctx', None), (ast.Store, ast.Del)) and False:
                 continue
             for f, c in positions(n):
-                if isinstance(c, ast.Slice) or anf._is_trivial(c):
+                if isinstance(c, ast.Slice) or G.spec_trivial(c):
                     continue
                 if isinstance(c, ast.Tuple) and any(isinstance(x, ast.Slice) for x in c.elts):
                     continue      # the index tuple of an extended slice cannot stand alone
@@ -139,7 +139,7 @@ def shape_failures(orig, out, config, hoisted):
             cs = [('test', n.test)] if isinstance(n, ast.If) else [('iter', n.iter)] if isinstance(n, ast.For) \
                 else [('items', it.context_expr) for it in n.items]
             for f, c in cs:
-                if not anf._is_trivial(c) and t.should(n, f, c):
+                if not G.spec_trivial(c) and t.should(n, f, c):
                     bad.append(('a statement header the configuration asks to be named still holds a compound expression',
                                 '%s.%s = %s' % (type(n).__name__, f, unparse(c))))
     return bad[:3]
@@ -199,18 +199,21 @@ def classify(orig, out, config, what, detail=None):
         # first divergence = the transformed code repeats the truth test it has just made
         if 0 < i < len(et) and et[i].startswith('bool(') and et[i] == et[i - 1]:
             return 'anf-boolop-test-double-truth'
-    m = G.Mirror(G.SpecConfig(config, anf).should, anf._is_trivial)
+    m = G.Mirror(G.SpecConfig(config, anf).should, G.spec_trivial)
     for s in orig.body:
         m.stmt(s)
     for r in ('anf-assign-target-order', 'anf-dict-order', 'anf-starred-unpack-order', 'anf-sibling-order'):
         if r in m.reasons and what == 'order':
             return r
+    # `y + (y := a())`: the read of y stays in place, the hoisted assignment expression runs before it
+    if what == 'order' and G.read_before_walrus(orig):
+        return 'anf-name-read-before-walrus'
     return None
 
 
 def mirror(orig, config):
     from malt.pyct.common_transformers import anf
-    m = G.Mirror(G.SpecConfig(config, anf).should, anf._is_trivial)
+    m = G.Mirror(G.SpecConfig(config, anf).should, G.spec_trivial)
     for s in orig.body:
         m.stmt(s)
     return m
@@ -231,11 +234,11 @@ def lazy_positions(node, config):
             fld = {id(c): f for f in n._fields for c in (getattr(n, f) if isinstance(getattr(n, f), list) else [getattr(n, f)])
                    if isinstance(c, ast.AST)}
             for c in kids:
-                if not anf._is_trivial(c) and t.should(n, fld[id(c)], c):
+                if not G.spec_trivial(c) and t.should(n, fld[id(c)], c):
                     out.append(n)
                     break
         elif isinstance(n, ast.While):
-            if not anf._is_trivial(n.test) and t.should(n, 'test', n.test):
+            if not G.spec_trivial(n.test) and t.should(n, 'test', n.test):
                 out.append(n)
     return out
 
@@ -318,16 +321,16 @@ def _programs(run):
             progs.append(('fixed', src, [(anf.ASTEdgePattern(anf.ANY, f, anf.ANY), anf.REPLACE)],
                           '[(anf.ASTEdgePattern(anf.ANY, %r, anf.ANY), anf.REPLACE)]' % f))
     for i in range(n_model):
-        g = G.Gen(rnd, 'model', lazy=0.0, maxdepth=rnd.choice([1, 2, 2, 3]))
+        g = G.Gen(rnd, 'model', lazy=0.0, maxdepth=rnd.choice([1, 2, 2, 3]), walrus=0.06)
         cfg, cd = G.gen_config(rnd, anf)
         progs.append(('model', g.program(depth=rnd.choice([0, 1, 2])), cfg, cd))
     for i in range(n_wide):
-        g = G.Gen(rnd, 'wide', lazy=0.02, maxdepth=rnd.choice([1, 2, 3]))
+        g = G.Gen(rnd, 'wide', lazy=0.02, maxdepth=rnd.choice([1, 2, 3]), walrus=0.05)
         cfg, cd = G.gen_config(rnd, anf)
         progs.append(('wide', g.program(depth=rnd.choice([0, 1, 2])), cfg, cd))
     for i in range(n_gensym):
         # variables / parameters named like generated temporaries, in every role
-        g = G.Gen(rnd, 'model', lazy=0.0, maxdepth=rnd.choice([1, 2, 2, 3]))
+        g = G.Gen(rnd, 'model', lazy=0.0, maxdepth=rnd.choice([1, 2, 2, 3]), walrus=0.06)
         cfg, cd = G.gen_config(rnd, anf)
         progs.append(('gensym', G.rename_to_gensym(g.program(depth=rnd.choice([0, 1, 2])), rnd), cfg, cd))
     for i in range(n_lazy):
